@@ -280,28 +280,28 @@ def case_tensor(rec, gname, rank, lead, action_kinds, project_kinds, allpairs):
             hT = [h.transform_tensor(T, rank, trTR, trInv) for h in G]
             rec.witness = _wit(gname, rank, lead, kind, T, test="oracle")
             rec.close(f"{kind}: transform_tensor == rotation of every Cartesian index, then TR/Inv transforms", sarr(hT),
-                      sarr([oracle_transform(h, T, rank, trTR, trInv) for h in G]), 1e-13, key=f"transform_tensor differs from the rotation formula ({kind})")
+                      sarr([oracle_transform(h, T, rank, trTR, trInv) for h in G]), 1e-13, key=f"transform_tensor differs from the rotation formula")
             rec.eq(f"{kind}: input tensor not modified", T, T0, key="transform_tensor modifies its input")
             for ig in gsel:
                 g = G[ig]
                 rec.witness = _wit(gname, rank, lead, kind, T, test="action", g=ig)
                 lhs = [g.transform_tensor(x, rank, trTR, trInv) for x in hT]
                 rhs = [(g * h).transform_tensor(T, rank, trTR, trInv) for h in G]
-                rec.close(f"{kind}: g(hT) == (g*h)T for all h, g=#{ig}", sarr(lhs), sarr(rhs), 1e-12, key=f"transform_tensor is not a group action ({kind})")
+                rec.close(f"{kind}: g(hT) == (g*h)T for all h, g=#{ig}", sarr(lhs), sarr(rhs), 1e-12, key="transform_tensor is not a group action")
         for kind in project_kinds:
             _, trTR, trInv, cplx = kind_by_name(rank, lead, kind)
             T = _tensor(rank, lead, cplx)
             rec.witness = _wit(gname, rank, lead, kind, T, test="project")
             P = pg.symmetrize_tensor(T, transformTR=trTR, transformInv=trInv, rank=rank)
             want = sum(oracle_transform(g, T, rank, trTR, trInv) for g in G) / n
-            rec.close(f"{kind}: symmetrize_tensor == group average", P, want, 1e-12, key=f"symmetrize_tensor is not the group average ({kind})")
-            rec.close(f"{kind}: P(P T) == P T", pg.symmetrize_tensor(P, transformTR=trTR, transformInv=trInv, rank=rank), P, 1e-12, key=f"symmetrize_tensor not idempotent ({kind})")
+            rec.close(f"{kind}: symmetrize_tensor == group average", P, want, 1e-12, key=f"symmetrize_tensor is not the group average")
+            rec.close(f"{kind}: P(P T) == P T", pg.symmetrize_tensor(P, transformTR=trTR, transformInv=trInv, rank=rank), P, 1e-12, key=f"symmetrize_tensor not idempotent")
             rec.close(f"{kind}: g(P T) == P T for every g", sarr([g.transform_tensor(P, rank, trTR, trInv) for g in G]), sarr([P] * n), 1e-12,
-                      key=f"symmetrized tensor not invariant ({kind})")
+                      key=f"symmetrized tensor not invariant")
             if len(lead) == 1:
                 res = ER.EnergyResult([np.arange(lead[0]) * 0.5], T.copy(), transformTR=trTR, transformInv=trInv, rank=rank, save_mode="")
                 rec.close(f"{kind}: PointGroup.symmetrize(EnergyResult) == symmetrize_tensor(data)", pg.symmetrize(res).data, P, 1e-12,
-                          key=f"PointGroup.symmetrize differs from symmetrize_tensor ({kind})")
+                          key=f"PointGroup.symmetrize differs from symmetrize_tensor")
     rec.explore(body, [])
 
 
